@@ -22,8 +22,11 @@ import (
 
 // c16MaxTransitions caps one breadth-first search (the suspended-thread states
 // have thousands of distinct successors at depth 2; depth 3 over the full menu
-// is out of reach for them).
-const c16MaxTransitions = 12000
+// is out of reach for them). Every transition starts a fresh debugger session
+// with its own threads inside ONE controlled execution, and the scheduler's
+// vector clocks grow with the number of threads of the execution (quadratic
+// memory): 12000 transitions needed more than 6 GB.
+const c16MaxTransitions = 3500
 
 type c16Init struct {
 	name   string
